@@ -776,3 +776,72 @@ Qed.
 Theorem format_self_old_shape_undefined (b : list (option nat)) (fa : nat -> nat -> nat) pos r :
   m_print_to fa false b pos (PSelf :: r) = None.
 Proof. reflexivity. Qed.
+
+(* ------------------------------------------------------------------ "%li" rendering: fuel adequacy *)
+(* value of a big-endian decimal digit string *)
+Fixpoint dec_value (l : list nat) : N :=
+  match l with
+  | [] => 0%N
+  | c :: r => (N.of_nat (c - 48) * 10 ^ N.of_nat (length r) + dec_value r)%N
+  end.
+
+Lemma dec_digits_value fuel : forall n acc, (n < 2 ^ N.of_nat fuel)%N ->
+  dec_value (dec_digits fuel n acc) = (n * 10 ^ N.of_nat (length acc) + dec_value acc)%N.
+Proof.
+  induction fuel as [|f IH]; intros n acc Hn; cbn [dec_digits].
+  - cbn in Hn. assert (n = 0%N) by lia. subst. reflexivity.
+  - assert (Hd : dec_value (digit_char (n mod 10) :: acc)
+                 = ((n mod 10) * 10 ^ N.of_nat (length acc) + dec_value acc)%N).
+    { cbn [dec_value]. unfold digit_char.
+      rewrite (Nat.add_comm 48), Nat.add_sub.
+      rewrite N2Nat.id. reflexivity. }
+    destruct (N.ltb_spec n 10) as [Hlt|Hge].
+    + rewrite Hd, N.mod_small by assumption. reflexivity.
+    + rewrite IH.
+      * rewrite Hd. cbn [length]. rewrite Nat2N.inj_succ, N.pow_succ_r'.
+        rewrite (N.div_mod n 10) at 3 by lia. ring.
+      * rewrite Nat2N.inj_succ, N.pow_succ_r' in Hn.
+        apply N.div_lt_upper_bound; lia.
+Qed.
+
+(* the fuel of dec_of_N is enough: the digits denote the number *)
+Theorem dec_of_N_value n : dec_value (dec_of_N n) = n.
+Proof.
+  unfold dec_of_N. rewrite dec_digits_value.
+  - cbn [length dec_value]. cbn. lia.
+  - rewrite Nat2N.inj_succ, N2Nat.id. destruct n as [|p]; [reflexivity|].
+    apply N.log2_spec. reflexivity.
+Qed.
+
+Lemma dec_digits_are_digits fuel : forall n acc, Forall (fun c => 48 <= c <= 57) acc ->
+  Forall (fun c => 48 <= c <= 57) (dec_digits fuel n acc).
+Proof.
+  induction fuel as [|f IH]; intros n acc H; cbn [dec_digits]; [assumption|].
+  assert (H' : Forall (fun c => 48 <= c <= 57) (digit_char (n mod 10) :: acc)).
+  { constructor; [|assumption]. unfold digit_char.
+    assert (Hm : (n mod 10 < 10)%N) by (apply N.mod_lt; lia).
+    revert Hm. generalize (n mod 10)%N. intros m Hm. lia. }
+  destruct (n <? 10)%N; [assumption|]. apply IH. assumption.
+Qed.
+
+(* "%li" of z: an optional '-' and the decimal digits of |z| *)
+Theorem dec_of_Z_value z :
+  match dec_of_Z z with
+  | 45 :: ds => z = (- Z.of_N (dec_value ds))%Z /\ (z < 0)%Z /\ Forall (fun c => 48 <= c <= 57) ds
+  | ds => z = Z.of_N (dec_value ds) /\ Forall (fun c => 48 <= c <= 57) ds
+  end.
+Proof.
+  destruct z as [|p|p]; cbn [dec_of_Z].
+  - split; [reflexivity|repeat constructor].
+  - pose proof (dec_of_N_value (Npos p)) as V.
+    pose proof (dec_digits_are_digits (S (N.to_nat (N.log2 (Npos p)))) (Npos p) [] (Forall_nil _)) as D.
+    fold (dec_of_N (Npos p)) in D. destruct (dec_of_N (Npos p)) as [|c ds] eqn:E.
+    + split; [rewrite V; reflexivity|constructor].
+    + assert (c <> 45) by (inversion D; lia).
+      destruct (Nat.eq_dec c 45); [contradiction|].
+      do 45 (destruct c as [|c]; [split; [rewrite V; reflexivity|exact D]|]).
+      destruct c; [contradiction|]. split; [rewrite V; reflexivity|exact D].
+  - pose proof (dec_of_N_value (Npos p)) as V.
+    pose proof (dec_digits_are_digits (S (N.to_nat (N.log2 (Npos p)))) (Npos p) [] (Forall_nil _)) as D.
+    fold (dec_of_N (Npos p)) in D. rewrite V. split; [reflexivity|]. split; [lia|exact D].
+Qed.
